@@ -2,7 +2,7 @@
    pattern is bit j of i (the value of the j-th input in row i), for every n. *)
 Require Import Cirbo.Model.Base.
 Require Import Cirbo.Generated.PatternOps Cirbo.Proofs.PatternBits.
-Open Scope N_scope.
+Local Open Scope N_scope.
 
 Lemma add_at_nat_length l j v : length (add_at_nat l j v) = length l.
 Proof.
